@@ -69,7 +69,7 @@ def case(draw):
     return {"rule": rule, "cands": list(draw(st.permutations(cands))), "ballots": ballots, "cfg": cfg,
             "L": L, "k": k, "variant": {"kind": vkind, "index": idx,
                                         "cand": draw(st.sampled_from(cands))},
-            "rng": draw(S.rng_spec())}
+            "rng": draw(S.rng_spec()), "prior": draw(st.integers(0, 2)) == 0}
 
 
 def strategy(tier):
@@ -169,6 +169,14 @@ def check(case):
     out = Outcome()
     rule, cfg = case["rule"], case["cfg"]
     out.label(f"rule={rule}", f"variant={case['variant']['kind']}")
+    if case.get("prior"):
+        # the same ballots are first counted for a longer candidate list (two extra candidates nobody
+        # scored): what a profile's totals and winners are does not depend on what was counted before
+        try:
+            pcfg = dict(cfg, m=1, tiebreak="random")
+            E.run(rule, C.mk_profile(case["ballots"], list(case["cands"]) + ["Zz1", "Zz2"]), pcfg, case["rng"])
+        except Exception:  # noqa: BLE001  (the prior run is not the subject)
+            pass
     judge_valid(out, case, case["ballots"], "valid_profile")
     nobody = len({c for b in case["ballots"] for c in b["s"]}) < len(case["cands"])
     var = make_variant(case)
